@@ -3,6 +3,8 @@ CONSTANTS
   MaxN = 2
   Templates <- TplC17c
   Bundles <- NoBundle
+  Ctxs <- Wide
+  Hists <- NoHist
   BackoffCfgs <- NoBoCfgs
   Attempts <- BoAttempts
 INVARIANT TypeOK Returned NoLateContact
